@@ -991,9 +991,11 @@ static int ec_glob(char *loc, char *cmd, char *arg, char *txt)
 				verif_emit(sb);
 			}
 #endif
+			if (xgdep == 1)
+				lbuf_globlo(xb, i);
 			if (ex_exec(s) || xquit)
 				break;
-			i = MIN(i, xrow);
+			i = MIN(i, lbuf_globlo(xb, -1));
 		}
 		while (i < lbuf_len(xb) && !lbuf_globget(xb, i, xgdep))
 			i++;
